@@ -418,6 +418,13 @@ func targets() []*target {
 		bufT("UnreadRune", "buf_unread_rune", nil, "bres err bstate", "", true),
 		bufT("UnreadByte", "buf_unread_byte", nil, "bres err bstate", "", true),
 		// the io.Writer is an oracle: it answers (w_m, w_e); what it was handed is the trace tr_
+		// the write side: s.buf == nil and growSlice are oracles (f_isnil, f_growSlice)
+		bufT("tryGrowByReslice", "buf_try_grow", []string{"(n : Z)"}, "bres (Z * bool) bstate", "", true),
+		bufT("grow", "buf_grow_int", []string{"(f_isnil : gslice -> bool)", "(f_growSlice : gslice -> Z -> bres gslice unit)", "(n : Z)"}, "bres Z bstate", "", true),
+		bufT("Grow", "buf_grow", []string{"(f_isnil : gslice -> bool)", "(f_growSlice : gslice -> Z -> bres gslice unit)", "(n : Z)"}, "bres unit bstate", "", true),
+		bufT("Write", "buf_write", []string{"(f_isnil : gslice -> bool)", "(f_growSlice : gslice -> Z -> bres gslice unit)", "(p : gslice)"}, "bres (Z * err) bstate", "", true),
+		bufT("WriteString", "buf_write_string", []string{"(f_isnil : gslice -> bool)", "(f_growSlice : gslice -> Z -> bres gslice unit)", "(str : bytes)"}, "bres (Z * err) bstate", "", true),
+		bufT("WriteByte", "buf_write_byte", []string{"(f_isnil : gslice -> bool)", "(f_growSlice : gslice -> Z -> bres gslice unit)", "(c : Z)"}, "bres err bstate", "", true),
 		bufT("WriteTo", "buf_write_to", []string{"(w : unit)", "(w_m : Z)", "(w_e : err)", "(tr_ : list bytes)"}, "bres (Z * err) (bstate * list bytes)", "", true),
 	}
 }
